@@ -3,15 +3,16 @@ Path enumerations of `Market._execution` on a one-buy / one-sell book (see SrcMa
 `nf%` computes the pruned paths of the symbolic run of the *current* translated source, `rfl` makes
 the kernel re-check them.  Shape: buy limit, sell limit.
 -/
+import PamsLemmas.EvalNf
 import PamsLemmas.SrcMarketDefs
 
 namespace Pams.Src
 open Pams Pams.Py
 set_option maxRecDepth 1000000
 
-theorem exec11_ff_tt : exec11Paths false false true true = nf% (exec11Paths false false true true) := by rfl
-theorem exec11_ft_tt : exec11Paths false true true true = nf% (exec11Paths false true true true) := by rfl
-theorem exec11_tf_tt : exec11Paths true false true true = nf% (exec11Paths true false true true) := by rfl
-theorem exec11_tt_tt : exec11Paths true true true true = nf% (exec11Paths true true true true) := by rfl
+theorem exec11_ff_tt : exec11Paths false false true true = evalnf% (exec11Paths false false true true) := by kernel_rfl
+theorem exec11_ft_tt : exec11Paths false true true true = evalnf% (exec11Paths false true true true) := by kernel_rfl
+theorem exec11_tf_tt : exec11Paths true false true true = evalnf% (exec11Paths true false true true) := by kernel_rfl
+theorem exec11_tt_tt : exec11Paths true true true true = evalnf% (exec11Paths true true true true) := by kernel_rfl
 
 end Pams.Src
